@@ -55,7 +55,8 @@ def program(rng, **opts):
     P = gen.generate(seed, **o)
     eol = rng.choice(["\n", "\n", "\r\n"])
     style = rng.choice(["random", "random", "spaced", "compact", "lines"])
-    text = layout.layout(P, rng, style, eol, final=rng.choice([None, "", eol]))
+    stray = style == "random" and rng.random() < .25      # lone carriage returns: line breaks for LSP positions, white space for SPL
+    text = layout.layout(P, rng, style, eol, final=rng.choice([None, "", eol] + (["\r"] if stray else [])), stray_cr=stray)
     return P, text, layout.Text(text)
 
 
